@@ -35,6 +35,220 @@ def unhex(h):
     return b'' if h == '-' else bytes.fromhex(h)
 
 
+# ---- part B: file-system cases ------------------------------------------------------------------
+# A case starts with '@fs' (the harness builds fs-<pid>/g1/g2/g3/{in,out} and works in `in`).
+# Paths are relative, use '/' only, have at most one leading '..' (always followed by `out`) and
+# never end in a separator, so that nothing can climb out of the guard levels.
+
+def H(s):
+    return hexs(s if isinstance(s, bytes) else s.encode())
+
+
+LINK_TARGETS = ['../out', '../out/s', '../out/k', 'a', 'a/b', 'f', '.', 'nowhere', 'l2', 'l', 'a/g', '../in/a']
+NAMES = ['a', 'b', 'c', 'f', 'g', 'l', 'l2', 'm']
+CONTENTS = [b'', b'x', b'hello', b'0123456789', b'\x00\xff\x00', b'abcdefghijklmnopqrstuvwxyz' * 3]
+
+
+def sentinel():
+    """the outside: out/s (directory) with out/s/keep, and out/k"""
+    return ['mkd ' + H('../out/s'), 'mkf %s %s' % (H('../out/s/keep'), H(b'KEEP')), 'mkf %s %s' % (H('../out/k'), H(b'outside'))]
+
+
+def rand_tree(rng, links=True):
+    """set-up lines for a small tree below `in`; returns (lines, dirs, files, linknames)"""
+    lines, dirs, files, lnks = [], [], [], []
+    for _ in range(rng.randrange(0, 4)):
+        parent = rng.choice([''] + dirs)
+        nm = rng.choice(['a', 'b', 'c', 'g'])
+        p = (parent + '/' if parent else '') + nm
+        if p not in dirs and p not in files and p.count('/') < 3:
+            dirs.append(p)
+            lines.append('mkd ' + H(p))
+    for _ in range(rng.randrange(0, 4)):
+        parent = rng.choice([''] + dirs)
+        nm = rng.choice(['f', 'g', 'm', 'b'])
+        p = (parent + '/' if parent else '') + nm
+        if p not in dirs and p not in files:
+            files.append(p)
+            lines.append('mkf %s %s' % (H(p), H(rng.choice(CONTENTS))))
+    if links:
+        for _ in range(rng.randrange(0, 4)):
+            parent = rng.choice(['', ''] + dirs)
+            nm = rng.choice(['l', 'l2', 'c'])
+            p = (parent + '/' if parent else '') + nm
+            if p not in dirs and p not in files and p not in lnks:
+                lnks.append(p)
+                lines.append('mkl %s %s' % (H(rng.choice(LINK_TARGETS)), H(p)))
+    return lines, dirs, files, lnks
+
+
+def rand_fs_path(rng, dirs, files, lnks, fresh=0.3):
+    """a path: mostly something that exists (possibly with a new last component), sometimes decorated"""
+    pool = dirs + files + lnks
+    r = rng.random()
+    if pool and r > fresh:
+        p = rng.choice(pool)
+    elif pool and r > fresh / 2:
+        p = rng.choice(dirs + lnks + ['']) if (dirs or lnks) else ''
+        p = (p + '/' if p else '') + rng.choice(NAMES + ['new', 'n2'])
+    else:
+        p = '/'.join(rng.choice(NAMES + ['new']) for _ in range(rng.randrange(1, 4)))
+    d = rng.random()
+    if d < 0.08:
+        p = './' + p
+    elif d < 0.16 and '/' in p:
+        i = p.index('/')
+        p = p[:i] + '/../' + p          # a/../a/b
+    elif d < 0.22:
+        p = '../out/' + rng.choice(['s', 'k', 's/keep', 'new', 's/new/x'])
+    elif d < 0.26 and '/' in p:
+        p = p.replace('/', '/./', 1)
+    return p
+
+
+def handle_history(rng, h, n):
+    """write / seek / read operations on handle h"""
+    out = []
+    for _ in range(n):
+        r = rng.random()
+        if r < 0.35:
+            out.append('write %d %s' % (h, H(rng.choice(CONTENTS[1:] + [b'Z', b'QQ']))))
+        elif r < 0.6:
+            wh = rng.choice([0, 0, 1, 2])
+            off = rng.choice([0, 0, 1, 2, 3, 5, 9, 12, -1, -2, -5, 40])
+            out.append('seek %d %d %d' % (h, off, wh))
+        elif r < 0.8:
+            out.append('readall %d' % h)
+        elif r < 0.9:
+            out.append('read %d %d' % (h, rng.choice([0, 1, 3, 8, 100])))
+        else:
+            out.append('size %d' % h)
+    return out
+
+
+def fs_files_cases(rng, n):
+    cases = []
+    for _ in range(n):
+        lines, dirs, files, lnks = rand_tree(rng)
+        c = ['@fs'] + sentinel() + lines
+        for _ in range(rng.randrange(1, 4)):
+            p = rand_fs_path(rng, dirs, files, lnks, fresh=0.4)
+            fl = rng.choice([1, 2, 3, 6, 7, 2 | 8, 3 | 8, 2 | 4 | 8, 1 | 4, 1 | 8, 0, 4])
+            c.append('open 0 %s %d' % (H(p), fl))
+            c += handle_history(rng, 0, rng.randrange(1, 7))
+            if rng.random() < 0.3:                      # a second handle on the same or another file
+                q = p if rng.random() < 0.5 else rand_fs_path(rng, dirs, files, lnks)
+                c.append('open 1 %s %d' % (H(q), rng.choice([1, 3, 3 | 8, 1])))
+                c += handle_history(rng, rng.choice([0, 1]), rng.randrange(1, 4))
+                c.append('close 1')
+            c.append('close 0')
+            c.append('open 0 %s 1' % H(p))
+            c.append('readall 0')
+            c.append('close 0')
+            r = rng.random()
+            q = rand_fs_path(rng, dirs, files, lnks, fresh=0.6)
+            if r < 0.3:
+                c.append('copy %s %s %d' % (H(p), H(q), rng.randrange(2)))
+                c += ['open 0 %s 1' % H(q), 'readall 0', 'close 0']
+            elif r < 0.6:
+                c.append('rename %s %s %d' % (H(p), H(q), rng.randrange(2)))
+                c += ['open 0 %s 1' % H(q), 'readall 0', 'close 0']
+            elif r < 0.7:
+                c.append('funlink ' + H(p))
+        cases.append(c)
+    return cases
+
+
+def fs_dirs_cases(rng, n):
+    cases = []
+    for _ in range(n):
+        lines, dirs, files, lnks = rand_tree(rng)
+        c = ['@fs'] + sentinel() + lines
+        for _ in range(rng.randrange(1, 5)):
+            r = rng.random()
+            if r < 0.45:
+                base = rand_fs_path(rng, dirs, files, lnks, fresh=0.5)
+                extra = '/'.join(rng.choice(['x', 'y', 'a', '.', 'b']) for _ in range(rng.randrange(0, 3)))
+                p = base + ('/' + extra if extra else '')
+                if rng.random() < 0.1:
+                    p = p + '/..'
+                c.append('create ' + H(p))
+            elif r < 0.85:
+                p = rand_fs_path(rng, dirs, files, lnks, fresh=0.2)
+                rec = 1 if rng.random() < 0.8 else 0
+                if p.endswith('..'):
+                    rec = 0
+                c.append('dunlink %s %d' % (H(p), rec))
+            elif r < 0.93:
+                c.append('exists ' + H(rand_fs_path(rng, dirs, files, lnks)))
+            else:
+                c.append('symlink %s %s' % (H(rng.choice(LINK_TARGETS)), H(rand_fs_path(rng, dirs, files, lnks, fresh=0.8))))
+        cases.append(c)
+    return cases
+
+
+def fs_failure_cases(rng, n):
+    """rename / copy / open aimed at their failure branches"""
+    cases = []
+    for _ in range(n):
+        lines, dirs, files, lnks = rand_tree(rng)
+        c = ['@fs'] + sentinel() + lines
+        for _ in range(rng.randrange(1, 4)):
+            src = rng.choice([rand_fs_path(rng, dirs, files, lnks, fresh=0.2), 'missing', rng.choice(dirs + ['a']), rng.choice(lnks + ['l'])])
+            dst = rng.choice([rand_fs_path(rng, dirs, files, lnks, fresh=0.7), 'new', 'nodir/new', rng.choice(files + ['f']) + '/x',
+                              rng.choice(dirs + ['a']), rng.choice(lnks + ['l']), src])
+            k = rng.random()
+            if k < 0.45:
+                c.append('rename %s %s %d' % (H(src), H(dst), rng.randrange(2)))
+            elif k < 0.9:
+                c.append('copy %s %s %d' % (H(src), H(dst), rng.randrange(2)))
+            else:
+                c.append('open 0 %s %d' % (H(dst), rng.choice([1, 2 | 8, 3 | 8, 2, 3, 6])))
+                c.append('close 0')
+        cases.append(c)
+    return cases
+
+
+FIXED_TREES = [
+    [],
+    ['mkd ' + H('a'), 'mkf %s %s' % (H('a/f'), H(b'hello')), 'mkf %s %s' % (H('b'), H(b'bb')), 'mkl %s %s' % (H('../out'), H('l'))],
+    ['mkd ' + H('a'), 'mkd ' + H('a/b'), 'mkl %s %s' % (H('../../out/s'), H('a/l')), 'mkl %s %s' % (H('a'), H('l')), 'mkf %s %s' % (H('a/b/f'), H(b'x'))],
+    ['mkd ' + H('a'), 'mkl %s %s' % (H('nowhere'), H('l')), 'mkl %s %s' % (H('b'), H('b')), 'mkf %s %s' % (H('f'), H(b'data'))],
+]
+
+
+def small_paths(alpha, maxlen):
+    out = []
+    for n in range(1, maxlen + 1):
+        for t in itertools.product(alpha, repeat=n):
+            if t[-1] == '..' or t.count('..') > 1:
+                continue
+            out.append('/'.join(t))
+    return out
+
+
+def fs_exhaustive_cases(thorough):
+    """every short path on a few fixed trees, one operation per case"""
+    cases = []
+    alpha = ['a', 'b', 'l', 'f', '.', '..'] if thorough else ['a', 'b', 'l', '.', '..']
+    paths = small_paths(alpha, 3 if thorough else 2)
+    paths = [p for p in paths if not p.startswith('..')]
+    for tree in FIXED_TREES:
+        for p in paths:
+            cases.append(['@fs'] + sentinel() + tree + ['create ' + H(p)])
+            cases.append(['@fs'] + sentinel() + tree + ['dunlink %s 1' % H(p)])
+            if thorough:
+                cases.append(['@fs'] + sentinel() + tree + ['dunlink %s 0' % H(p)])
+    two = small_paths(['a', 'b', 'l', 'f', 'n'], 2) if thorough else small_paths(['a', 'b', 'l', 'f', 'n'], 1) + ['a/f', 'a/n', 'l/n', 'a/b', 'n/n']
+    for tree in FIXED_TREES[1:]:
+        for p in two:
+            for q in two:
+                for fie in (0, 1):
+                    cases.append(['@fs'] + sentinel() + tree + ['rename %s %s %d' % (H(p), H(q), fie)])
+                    cases.append(['@fs'] + sentinel() + tree + ['copy %s %s %d' % (H(p), H(q), fie)])
+    return cases
+
+
 class C19(Check):
     id = 'C19'
     comp = 'Path'
@@ -46,7 +260,16 @@ class C19(Check):
     rule = 'TODO'
     assumptions = []
 
+    FS_SETUP = ('mkd', 'mkf', 'mkl')
+
     def nontrivial(self, case, obs):
+        if case and case[0].startswith('@fs'):
+            # a file-system case counts when a library operation ran and its answer was observed
+            ops = case[1:]
+            for l, o in zip(ops, obs):
+                if l.split()[0] not in self.FS_SETUP and not o.startswith('?') and not o.startswith('!'):
+                    return True
+            return False
         for l in case:
             for a in l.split()[1:]:
                 if a == '-' or not all(ch in '0123456789abcdef' for ch in a):
@@ -70,9 +293,23 @@ class C19(Check):
                 continue
             exp = s[k] if k < len(s) else '<nothing>'
             got = o[k] if k < len(o) else '<nothing>'
-            opl = cases[i][k].split() if k < len(cases[i]) else ['?']
-            if opl[0].startswith('@'):
-                opl = ['?']
+            ops_i = cases[i][1:] if cases[i] and cases[i][0].startswith('@') else cases[i]
+            opl = ops_i[k].split() if k < len(ops_i) else ['?']
+            if cases[i] and cases[i][0].startswith('@fs'):
+                es, gs = exp.split(' | '), got.split(' | ')
+                if got.startswith('!'):
+                    what = got
+                elif es[0] != gs[0]:
+                    what = 'result'
+                else:
+                    e_t, g_t = set(es[1].split()) if len(es) > 1 else set(), set(gs[1].split()) if len(gs) > 1 else set()
+                    new = sorted(x for x in g_t - e_t)
+                    gone = sorted(x for x in e_t - g_t)
+                    touched = ' '.join(new + gone)
+                    what = 'tree-outside' if ('out' in touched or '!' in touched) else ('tree-left-behind' if new and not gone else 'tree')
+                cls = ('fs/%s/%s' % (opl[0], what)).replace('0', 'o').ljust(80)
+                fails.append((i, k, '%s expected `%s`, implementation gives `%s`' % (cls, exp, got)))
+                continue
             field = '?'
             et, gt = exp.split(' | ')[0].split(' '), got.split(' | ')[0].split(' ')
             for j, (a, b) in enumerate(zip(et, gt)):
@@ -120,6 +357,15 @@ class C19(Check):
             cases.append(['parts ' + hexs(p), 'simp ' + hexs(p), 'abs ' + hexs(p), 'basex %s %s' % (hexs(p), hexs(e)),
                           'rel %s %s' % (hexs(p), hexs(q)), 'rel %s %s' % (hexs(q), hexs(p))])
         out.append(Stream('paths-random', cases))
+        # B: the real File / Directory code on scratch trees against the file-system model
+        out.append(Stream('fs-files', fs_files_cases(rng, 1500 if thorough else 250),
+                          note='open with every flag mapping, write/seek/read/readAll/size histories, re-read, copy, rename'))
+        out.append(Stream('fs-dirs', fs_dirs_cases(rng, 2500 if thorough else 400),
+                          note='Directory::create / unlink on random trees with symbolic links to the outside sentinel'))
+        out.append(Stream('fs-failures', fs_failure_cases(rng, 2000 if thorough else 300),
+                          note='rename / copy / open aimed at their failure branches'))
+        out.append(Stream('fs-exhaustive', fs_exhaustive_cases(thorough), exhaustive=True,
+                          note='create / unlink on every short path, rename / copy on every pair of short paths, over %d fixed trees' % len(FIXED_TREES)))
         return out
 
 
